@@ -491,6 +491,19 @@ fn probe(h: H) -> Out {
         if meta != 0 {
             o.push(-2);
         }
+        // ... not even for an instant: fetching while someone else holds the table exclusively must work
+        {
+            let g = world.fetch_mut::<specs::shred::MetaTable<dyn specs::storage::AnyStorage>>();
+            let ok = catch_unwind(AssertUnwindSafe(|| {
+                let d = real_fetch(h, &world);
+                drop(d);
+            }))
+            .is_ok();
+            drop(g);
+            if !ok {
+                o.push(-3);
+            }
+        }
         o
     });
     r.unwrap_or_else(|_| vec![9])
